@@ -14,8 +14,14 @@ package circuitbreaker
 //   - maxWaitDurationInHalfOpenState: a verdict is only demanded when the breaker has been
 //     half-open for strictly more than the duration by every reading AND all permitted trials
 //     have been admitted; "exactly the duration" and "free trial slots left" are followed;
-//   - HALF_OPEN decision point when minimumNumberOfCalls < permitted trials: the model flags
-//     itself undecided and the monitors stop comparing (exploration only).
+//   - HALF_OPEN decision point when minimumNumberOfCalls < permitted trials: the sentence does
+//     not say after how many trial results the decision is taken, so after every trial result
+//     but the last permitted one the model offers "still HALF_OPEN", "closed" and "reopened" and
+//     the monitors follow what the implementation did (only unanimous trial results fix the
+//     direction: no failed/slow trial so far cannot reopen, only failed or only slow trials so
+//     far cannot close).  Everything else stays judged for these policies: the last permitted
+//     trial result decides by the rates, and once HALF_OPEN has ended the results of trials
+//     admitted in it belong to an earlier state and must have no effect on the new state.
 // Time windows are at second granularity, as in the property's anchors: a result recorded in
 // (absolute) second s is in the window at second S iff s > S - N.
 
@@ -58,6 +64,7 @@ type c08Policy struct {
 }
 
 // deciding: the property fixes the HALF_OPEN decision point (after all permitted trials).
+// For the other policies the breaker may leave HALF_OPEN while admitted trials are in flight.
 func (p *c08Policy) deciding() bool {
 	eff := p.MinCalls
 	if eff < 1 {
@@ -104,9 +111,17 @@ var (
 )
 
 // c08GenPolicy: i selects a systematic prefix (all threshold x window type x min-calls kind x
-// permitted combinations), the rest is random.  needDeciding forces a policy whose half-open
-// decision point is fixed by the property.
-func c08GenPolicy(rng *rand.Rand, i int, needDeciding bool) *c08Policy {
+// permitted combinations), the rest is random.  mode c08Deciding forces a policy whose half-open
+// decision point is fixed by the property, c08EarlyExit one where it is not (minimumNumberOfCalls
+// < permitted: HALF_OPEN can end while admitted trials are still in flight), c08AnyPolicy mixes.
+const (
+	c08AnyPolicy = iota
+	c08Deciding
+	c08EarlyExit
+)
+
+func c08GenPolicy(rng *rand.Rand, i int, mode int) *c08Policy {
+	needDeciding := mode == c08Deciding
 	for try := 0; ; try++ {
 		p := &c08Policy{}
 		var mcKind int
@@ -142,6 +157,30 @@ func c08GenPolicy(rng *rand.Rand, i int, needDeciding bool) *c08Policy {
 			p.Wait = time.Second
 		}
 		p.MaxWait = c08MaxWaits[rng.Intn(len(c08MaxWaits))]
+		if mode == c08EarlyExit {
+			if p.Permitted == 1 {
+				p.Permitted = c08Permitted[1+rng.Intn(2)]
+			}
+			if mcKind == 3 && p.Permitted == 2 {
+				p.Permitted = 5
+			}
+			if p.Permitted > 2 && rng.Intn(3) == 0 {
+				// 2 <= minimumNumberOfCalls < permitted with a window that can hold them: a result
+				// wrongly kept in (or missing from) the window shifts the opening call count
+				p.MinCalls = 2 + uint32(rng.Intn(int(p.Permitted)-2))
+				if p.N < p.MinCalls {
+					p.N = p.MinCalls + uint32(rng.Intn(4))
+				}
+			} else if mcKind >= 2 && p.N+uint32(mcKind-2) >= p.Permitted {
+				// minimumNumberOfCalls in {N, N+1} below the permitted trials needs a small window
+				p.N = uint32(1 + rng.Intn(int(p.Permitted)+1-mcKind))
+				p.MinCalls = p.N + uint32(mcKind-2)
+			}
+			if p.deciding() {
+				continue
+			}
+			return p
+		}
 		if p.deciding() {
 			return p
 		}
@@ -164,8 +203,8 @@ func c08GenPolicy(rng *rand.Rand, i int, needDeciding bool) *c08Policy {
 			}
 			continue
 		}
-		// non-deciding policies are explored without a verdict; keep only a few of them
-		if rng.Intn(100) < 20 || (i >= 0 && i < 96 && try == 0) {
+		// policies with an open decision point: a share of the mix
+		if rng.Intn(100) < 30 || (i >= 0 && i < 96 && try == 0) {
 			return p
 		}
 	}
@@ -207,7 +246,9 @@ type c08Model struct {
 	admitted  int            // HALF_OPEN: trials admitted
 	trials    []uint8        // HALF_OPEN: trial results recorded
 	calls     map[int]int    // outstanding admitted call -> epoch of admission
-	undecided bool           // the property no longer fixes the behaviour (see top of file)
+	endedHalf int            // epoch of the most recent HALF_OPEN that ended (0: none); only names events
+	inFlight  int            // admitted trials of that HALF_OPEN that had not reported when it ended
+	k         string         // cached key(); models are not modified once a transition has returned them
 }
 
 type c08Alt struct {
@@ -222,6 +263,7 @@ func c08NewModel(p *c08Policy) *c08Model {
 
 func (m *c08Model) clone() *c08Model {
 	n := *m
+	n.k = ""
 	n.win = append([]c08Entry(nil), m.win...)
 	n.trials = append([]uint8(nil), m.trials...)
 	n.calls = make(map[int]int, len(m.calls)+1)
@@ -231,9 +273,14 @@ func (m *c08Model) clone() *c08Model {
 	return &n
 }
 
+// key identifies the behaviour of a state: the epoch numbers themselves are irrelevant, an
+// outstanding call is either of the current epoch or of an earlier one.
 func (m *c08Model) key() string {
+	if m.k != "" {
+		return m.k
+	}
 	var b strings.Builder
-	fmt.Fprintf(&b, "%d|%d|%v|", m.st, m.epoch, m.undecided)
+	fmt.Fprintf(&b, "%d|", m.st)
 	switch m.st {
 	case c08Closed:
 		for _, e := range m.win {
@@ -251,9 +298,14 @@ func (m *c08Model) key() string {
 	sort.Ints(ids)
 	b.WriteString("|")
 	for _, k := range ids {
-		fmt.Fprintf(&b, "%d:%d,", k, m.calls[k])
+		if m.calls[k] == m.epoch {
+			fmt.Fprintf(&b, "%d,", k)
+		} else {
+			fmt.Fprintf(&b, "%d:old,", k)
+		}
 	}
-	return b.String()
+	m.k = b.String()
+	return m.k
 }
 
 func (m *c08Model) describe() map[string]interface{} {
@@ -275,7 +327,21 @@ func (m *c08Model) describe() map[string]interface{} {
 	return d
 }
 
+// leaveHalf remembers a HALF_OPEN epoch that ends (for event names and required observations).
+func (m *c08Model) leaveHalf() {
+	if m.st != c08Half {
+		return
+	}
+	m.endedHalf, m.inFlight = m.epoch, 0
+	for _, ep := range m.calls {
+		if ep == m.epoch {
+			m.inFlight++
+		}
+	}
+}
+
 func (m *c08Model) toOpen(lo, hi int64) {
+	m.leaveHalf()
 	m.st, m.openLo, m.openHi = c08Open, lo, hi
 	m.epoch++
 	m.win, m.trials, m.admitted = nil, nil, 0
@@ -288,6 +354,7 @@ func (m *c08Model) toHalf(lo, hi int64) {
 }
 
 func (m *c08Model) toClosed() {
+	m.leaveHalf()
 	m.st = c08Closed
 	m.epoch++
 	m.win, m.trials, m.admitted = nil, nil, 0
@@ -365,7 +432,12 @@ func (m *c08Model) record(t int64, call int, res uint8) []c08Alt {
 	n := m.clone()
 	delete(n.calls, call)
 	if !ok || ep != m.epoch { // "results of calls admitted in an earlier state are ignored"
-		return []c08Alt{{false, n, "stale-ignored-in-" + c08StName[m.st]}}
+		ev := "stale-ignored-in-" + c08StName[m.st]
+		if ok && ep == m.endedHalf && m.st != c08Half {
+			// a trial that was still in flight when its HALF_OPEN ended
+			ev += "+late-trial-ignored-in-" + c08StName[m.st]
+		}
+		return []c08Alt{{false, n, ev}}
 	}
 	switch m.st {
 	case c08Closed:
@@ -420,21 +492,17 @@ func (m *c08Model) record(t int64, call int, res uint8) []c08Alt {
 			alts = append(alts, c08Alt{false, o, "trial-result-after-maxwait(followed)"})
 		}
 		n.trials = append(n.trials, res)
-		if !p.deciding() {
-			n.undecided = true
-			return append([]c08Alt{{false, n, "trial-recorded-undecided"}}, alts...)
-		}
-		ev := "trial-recorded"
-		if len(n.trials) >= int(p.Permitted) { // "the trials' recorded results close the breaker or reopen it"
-			fail, slow := 0, 0
-			for _, r := range n.trials {
-				switch r {
-				case c08Failure:
-					fail++
-				case c08Slow:
-					slow++
-				}
+		fail, slow := 0, 0
+		for _, r := range n.trials {
+			switch r {
+			case c08Failure:
+				fail++
+			case c08Slow:
+				slow++
 			}
+		}
+		if len(n.trials) >= int(p.Permitted) { // "the trials' recorded results close the breaker or reopen it"
+			ev := ""
 			if trip, why := n.rateTrips(fail, slow, len(n.trials)); trip {
 				n.toOpen(t, t)
 				ev = "half-to-open-" + why
@@ -442,8 +510,32 @@ func (m *c08Model) record(t int64, call int, res uint8) []c08Alt {
 				n.toClosed()
 				ev = "half-to-closed"
 			}
+			return append([]c08Alt{{false, n, ev}}, alts...)
 		}
-		return append([]c08Alt{{false, n, ev}}, alts...)
+		alts = append([]c08Alt{{false, n, "trial-recorded"}}, alts...)
+		if !p.deciding() {
+			// decision point left open by the property: the breaker may already decide on the
+			// trial results it has.  Followed, not judged, except for unanimous results.
+			if fail < len(n.trials) && slow < len(n.trials) {
+				c := n.clone()
+				c.toClosed()
+				ev := "half-to-closed-early(followed)"
+				if c.inFlight > 0 {
+					ev += "+closed-with-trials-in-flight"
+				}
+				alts = append(alts, c08Alt{false, c, ev})
+			}
+			if fail+slow > 0 {
+				o := n.clone()
+				o.toOpen(t, t)
+				ev := "half-to-open-early(followed)"
+				if o.inFlight > 0 {
+					ev += "+reopened-with-trials-in-flight"
+				}
+				alts = append(alts, c08Alt{false, o, ev})
+			}
+		}
+		return alts
 	}
 	// OPEN admits nobody, so no call can belong to an OPEN epoch
 	return []c08Alt{{false, n, "impossible-result-in-open-epoch"}}
